@@ -327,7 +327,11 @@ func (e *Engine) cutLoop(s *State, f *Frame, lp *loop, from *ssa.BasicBlock) {
 			builders = nil
 			continue
 		}
-		s.havocFamily(fam, ver)
+		if e.curFramed && len(s.frames) == 1 {
+			s.havocFamilyEntryFramed(fam, ver, e.curExcept, entry.heapAtEntry)
+		} else {
+			s.havocFamily(fam, ver)
+		}
 	}
 	var initVals = map[*ssa.Phi]Value{}
 	for _, in := range lp.header.Instrs {
@@ -391,6 +395,11 @@ func (e *Engine) cutLoop(s *State, f *Frame, lp *loop, from *ssa.BasicBlock) {
 		e.afterHavocPhi(s, f, lp, p, initVals[p], v)
 	}
 	f.loops[lp.header] = entry
+	// allocation state at the start of an arbitrary iteration: a fresh watermark above everything
+	// allocated so far (earlier iterations allocate too)
+	wmL := Sym(e.freshName("wmloop"), SInt)
+	s.assume(Le(s.allocTop(), wmL))
+	s.marks = append(s.marks, callMark{nAtCall: *s.nalloc, wm: wmL, wmpost: wmL})
 	// 3. assume written invariants
 	e.assumeLoopInvariant(s, f, lp)
 	// TERM: automatic variant for bounded counters
